@@ -63,12 +63,12 @@ var propTable = map[string]*propSpec{
 	},
 	"C04": {
 		ID:    "C04",
-		Rules: []string{"R-REGTABLE", "R-ARITY", "R-POS", "R-DIVZERO", "R-PANIC", "R-NARROW", "R-RECURSION", "R-ALLOC"},
+		Rules: []string{"R-REGTABLE", "R-ARITY", "R-POS", "R-DIVZERO", "R-PANIC", "R-NARROW", "R-RECURSION", "R-ALLOC", "R-SIZECAP"},
 		Explanation: "Decides structural necessary conditions of 'no Lua source or program can crash the embedding Go process', each of which flags a construct that is a Go panic or a fatal error for some input: " +
 			"(R-ARITY) no registered Go function reads an argument slot beyond its declared arity without a guard; (R-POS) every normalised string position is proved in range before it indexes/slices the subject or is handed to the matcher/unpacker; " +
 			"(R-DIVZERO) every integer division has a divisor excluded from zero on every path; (R-PANIC) every explicit panic is below a recover that keeps its type on every call chain from the API, or is a table-listed internal invariant; " +
 			"(R-NARROW) every integer narrowing in the code generator is range-checked (implementation limits become compile errors, not wrapped encodings); (R-RECURSION) every call-graph cycle reachable from the API passes a structurally recognised depth guard or is table-listed with its bound; " +
-			"(R-ALLOC) every computed-size allocation is bounded by memory held, charged first, and — for lengths decoded from input — compared with the input left; a size the program chooses, or computes with + * <<, is proved non-negative on every path to the allocation (through callers and closure captures), since make/Grow/Repeat panic on a negative count.",
+			"(R-ALLOC) every computed-size allocation is bounded by memory held, charged first, and — for lengths decoded from input — compared with the input left; a size the program chooses, or computes with + * <<, is proved non-negative on every path to the allocation (through callers and closure captures), since make/Grow/Repeat panic on a negative count; (R-SIZECAP) and it is compared with a constant or a held length on every path, because a charge bounds nothing in a context without a memory limit.",
 		NotDecided: "absence of every Go run-time error (nil dereference, arbitrary index expressions, map writes): Go's type system does not give that and a general bounds prover is out of reach; what the VM does with a hand-forged binary chunk that decodes successfully (there is no bytecode verifier in the repository); out-of-memory caused by a legitimately huge program-chosen size in a context without limits.",
 		Assumptions: []string{
 			"VTA+CHA call graph over-approximates calls; callbacks from standard-library frames are followed only when the entering module function can have supplied the callee (it converts a value of that type to an interface, references the function, or forwards interface/function parameters)",
@@ -78,10 +78,10 @@ var propTable = map[string]*propSpec{
 	},
 	"C05": {
 		ID:    "C05",
-		Rules: []string{"R-REGTABLE", "R-METER", "R-KILL"},
+		Rules: []string{"R-REGTABLE", "R-METER", "R-KILL", "R-CONTEXT"},
 		Explanation: "Decides the structural content of 'a CPU limit is a hard and uninterceptable bound; no operation runs unmetered': " +
 			"(R-METER) every loop and every call-graph cycle reachable from a cpusafe-declared Go function or the VM core carries a charging call on every cycle, or is bounded by a constant / a length already held / an iterator over a held collection / a pre-charge on its bound, or is table-listed with its bound argument; the dispatch points named by the quota design charge before they work; private budgets are fed from the quota and what they consume is charged; the matcher's cursor only advances where budget is consumed. " +
-			"(R-KILL) no frame other than the designated owners can keep a ContextTerminationError while protecting code that can hit a limit; the error is built only in TerminateContext after the status store; the coroutine forwarding chain is intact; CallContext's kill path runs no Lua code.",
+			"(R-KILL) no frame other than the designated owners can keep a ContextTerminationError while protecting code that can hit a limit; the error is built only in TerminateContext after the status store; the coroutine forwarding chain is intact; CallContext's kill path runs no Lua code. (R-CONTEXT) CallContext marks the context finished only after everything that can still run Lua (close handlers, finalisers): TerminateContext does nothing for a context that is not live, so an earlier setStatus would let that code run with the limit off.",
 		NotDecided: "the exact, deterministic tick counts and 'killed exactly for L <= u' (value-level); wall-clock bounds; that the constant in 'constant times memory' is small; nested bounded loops are accepted as bounded (polynomial, not linear).",
 		Assumptions: []string{
 			"a loop bounded by a held length, a constant or an iterator over a held collection does work proportional to memory the context holds (the property's own allowance)",
@@ -91,10 +91,10 @@ var propTable = map[string]*propSpec{
 	},
 	"C06": {
 		ID:    "C06",
-		Rules: []string{"R-ALLOC", "R-NEWSTR", "R-RELEASE", "R-TABLESET"},
+		Rules: []string{"R-REGTABLE", "R-ALLOC", "R-NEWSTR", "R-RELEASE", "R-TABLESET", "R-KILL", "R-CONTEXT"},
 		Explanation: "Decides the structural content of 'every operation whose allocation depends on program-chosen sizes charges memory before allocating, and releasing never drives the counter below zero': " +
 			"(R-ALLOC) every computed-size allocation is bounded by memory held or dominated by a charge on the same size; (R-NEWSTR) every fresh program-sized Lua string is preceded by a memory charge; " +
-			"(R-RELEASE) on every path no amount is released more often than it was acquired/inherited, destructors release exactly what constructors required under the same flags, and every release site names its require; (R-TABLESET) table growth is charged through the only caller of (*Table).Set.",
+			"(R-RELEASE) on every path no amount is released more often than it was acquired/inherited, destructors release exactly what constructors required under the same flags, and every release site names its require; (R-TABLESET) table growth is charged through the only caller of (*Table).Set. The termination itself is uninterceptable and the status is set last (R-KILL, R-CONTEXT, shared with C05): a memory kill that a recover frame turns into a Lua error, or a context marked finished before its handlers ran, leaves code running with the limit off.",
 		NotDecided: "monotonicity of 'killed' in M and the constant in 'heap <= constant x M' (value-level); allocations hidden inside the standard library (append growth, map buckets, fmt); over-accounting (memory charged and never released, e.g. stringlib.Format's deferred ReleaseMem(tmpMem) evaluated at defer time).",
 		Assumptions: []string{
 			"a charge 'on the same size' is recognised by def-use (the charged amount's expression shares the allocation's unbounded leaf) — arithmetic equality of the two amounts is not proved",
@@ -130,8 +130,8 @@ var propTable = map[string]*propSpec{
 	},
 	"C07": {
 		ID:          "C07",
-		Rules:       []string{"R-CONTEXT", "R-GATE"},
-		Explanation: "Decides dependency-presence conditions of 'nested contexts conserve budgets and report status truthfully': a child's hard limits are computed from the parent's hard limits, its used resources (refreshed when time is tracked) and the request; soft limits from the child's new hard limits; PopContext re-charges the parent before restoring it; the status field has exactly its four owners, and CallContext sets the final status only on the error branch after everything that can still run Lua; Due() depends on stopLevel, softLimits and usedResources; required flags only grow (R-GATE b).",
+		Rules:       []string{"R-REGTABLE", "R-CONTEXT", "R-GATE", "R-KILL"},
+		Explanation: "Decides dependency-presence conditions of 'nested contexts conserve budgets and report status truthfully': a child's hard limits are computed from the parent's hard limits, its used resources (refreshed when time is tracked) and the request; soft limits from the child's new hard limits; PopContext re-charges the parent before restoring it; the status field has exactly its four owners, and CallContext sets the final status only on the error branch after everything that can still run Lua; Due() depends on stopLevel, softLimits and usedResources; required flags only grow (R-GATE b); a termination cannot be kept by a recover frame other than its owners and is forwarded from a dying coroutine to its resumer, including when it is raised by the coroutine's own __close handlers (R-KILL): otherwise the resumer carries on in a context already marked killed, whose limits are no longer enforced.",
 		NotDecided:  "the '0 = unlimited' arithmetic of Remove/Merge/atLimit/smallerLimit over uint64 (value-level; a solver or exhaustive argument is a different family); that used never exceeds kill numerically.",
 		Assumptions: []string{"dependency presence is checked on SSA def-use slices (through calls), deliberately not expression shape, so inlining or renaming locals does not fire it; that the dependency is the *right* function of its inputs is not decided"},
 	},
